@@ -274,125 +274,269 @@ Proof.
   eapply IH; eauto.
 Qed.
 
+Lemma set_nth_In {A} (l : list A) : forall s x z, In z (set_nth s x l) -> z = x \/ In z l.
+Proof.
+  induction l as [|y l IH]; intros [|s] x z; simpl; try tauto.
+  - intros [E|Hin]; auto.
+  - intros [E|Hin]; auto. destruct (IH _ _ _ Hin); auto.
+Qed.
+
+Lemma set_nth_keeps {A} (l : list A) : forall s x y z,
+  nth_error l s = Some y -> In z l -> z = y \/ In z (set_nth s x l).
+Proof.
+  induction l as [|w l IH]; intros [|s] x y z N Hin; simpl in *; try discriminate.
+  - injection N as ->. destruct Hin as [->|Hin]; auto.
+  - destruct Hin as [->|Hin]; auto. destruct (IH _ x _ _ N Hin); auto.
+Qed.
+
+Lemma remove_nth_In {A} (l : list A) : forall s z, In z (remove_nth s l) -> In z l.
+Proof.
+  induction l as [|y l IH]; intros [|s] z; simpl; try tauto.
+  intros [E|Hin]; auto. right. eapply IH; eauto.
+Qed.
+
+(** uniqueness under a map survives narrowing the filter *)
+Lemma nodup_map_filter_sub {A B} (g : A -> B) (f f' : A -> bool) l :
+  (forall a, In a l -> f' a = true -> f a = true) ->
+  NoDup (map g (filter f l)) -> NoDup (map g (filter f' l)).
+Proof.
+  induction l as [|a l IH]; simpl; intros Hs Hn; [constructor|].
+  assert (Hs' : forall b, In b l -> f' b = true -> f b = true) by (intros b Hb; apply Hs; auto).
+  destruct (f' a) eqn:E'.
+  - rewrite (Hs a (or_introl eq_refl) E') in Hn. simpl in *.
+    inversion Hn as [|? ? Hx Hl]; subst. constructor; [|apply IH; auto].
+    intros Hin. apply Hx. apply in_map_iff in Hin as [b [Eb Hb]].
+    apply filter_In in Hb as [Hb1 Hb2]. apply in_map_iff. exists b. split; auto.
+    apply filter_In. split; auto.
+  - apply IH; auto. destruct (f a); simpl in Hn; [inversion Hn; auto|auto].
+Qed.
+
+Lemma nodup_map_filter {A B} (g : A -> B) (f : A -> bool) l :
+  NoDup (map g l) -> NoDup (map g (filter f l)).
+Proof.
+  induction l as [|a l IH]; simpl; intros Hn; [constructor|].
+  inversion Hn as [|? ? Hx Hl]; subst. destruct (f a); simpl; [|auto].
+  constructor; auto. intros Hin. apply Hx. apply in_map_iff in Hin as [b [Eb Hb]].
+  apply filter_In in Hb as [Hb _]. apply in_map_iff. eauto.
+Qed.
+
+Lemma filter_filter_imp {A} (f g : A -> bool) l :
+  (forall a, In a l -> f a = true -> g a = true) -> filter f (filter g l) = filter f l.
+Proof.
+  induction l as [|a l IH]; simpl; intros Hs; [reflexivity|].
+  assert (Hs' : forall b, In b l -> f b = true -> g b = true) by (intros b Hb; apply Hs; auto).
+  destruct (g a) eqn:G; simpl.
+  - rewrite IH; auto.
+  - destruct (f a) eqn:F; [|apply IH; auto].
+    rewrite (Hs a (or_introl eq_refl) F) in G. discriminate.
+Qed.
+
+Lemma find_filter_imp {A} (f g : A -> bool) l :
+  (forall a, In a l -> f a = true -> g a = true) -> find f (filter g l) = find f l.
+Proof.
+  induction l as [|a l IH]; simpl; intros Hs; [reflexivity|].
+  assert (Hs' : forall b, In b l -> f b = true -> g b = true) by (intros b Hb; apply Hs; auto).
+  destruct (g a) eqn:G; simpl.
+  - destruct (f a); auto.
+  - destruct (f a) eqn:F; [|apply IH; auto].
+    rewrite (Hs a (or_introl eq_refl) F) in G. discriminate.
+Qed.
+
+Lemma find_ext_in {A} (f g : A -> bool) l :
+  (forall a, In a l -> f a = g a) -> find f l = find g l.
+Proof.
+  induction l as [|a l IH]; simpl; intros Hs; [reflexivity|].
+  rewrite <- (Hs a (or_introl eq_refl)). destruct (f a); auto.
+Qed.
+
+Lemma memN_In c l : memN c l = true <-> In c l.
+Proof.
+  unfold memN. rewrite existsb_exists. split.
+  - intros [x [Hx E]]. apply N.eqb_eq in E. subst. exact Hx.
+  - intros Hin. exists c. split; auto. apply N.eqb_refl.
+Qed.
+
+(* ---- what the relationships of the slides lead to ---- *)
+Lemma img_targets_In rs i : In i (img_targets rs) <-> exists k, In (k, Some i) rs.
+Proof.
+  unfold img_targets. rewrite opt_somes_In, in_map_iff. split.
+  - intros [[k t] [E Hin]]. simpl in E. subst. eauto.
+  - intros [k Hin]. exists (k, Some i). auto.
+Qed.
+
+Lemma targets_In sl i : In i (targets sl) <-> exists rs, In rs sl /\ In i (img_targets rs).
+Proof. unfold targets. apply in_flat_map. Qed.
+
+Lemma targets_nth sl s rs i : nth_error sl s = Some rs -> In i (img_targets rs) -> In i (targets sl).
+Proof. intros N Hin. apply targets_In. exists rs. split; auto. eapply nth_error_In; eauto. Qed.
+
+Lemma targets_set_nth_upper sl s rs' i :
+  In i (targets (set_nth s rs' sl)) -> In i (targets sl) \/ In i (img_targets rs').
+Proof.
+  intros Hin. apply targets_In in Hin as [rs [A B]].
+  destruct (set_nth_In _ _ _ _ A) as [->|A']; auto.
+  left. apply targets_In. eauto.
+Qed.
+
+Lemma targets_set_nth_new sl s rs rs' i : nth_error sl s = Some rs ->
+  In i (img_targets rs') -> In i (targets (set_nth s rs' sl)).
+Proof.
+  intros N Hin. apply targets_In. exists rs'. split; auto.
+  eapply nth_error_In. eapply nth_set_nth; eauto.
+Qed.
+
+Lemma targets_set_nth_lower sl s rs rs' i : nth_error sl s = Some rs ->
+  (forall j, In j (img_targets rs) -> In j (img_targets rs')) ->
+  In i (targets sl) -> In i (targets (set_nth s rs' sl)).
+Proof.
+  intros N Hsub Hin. apply targets_In in Hin as [rs0 [A B]].
+  destruct (set_nth_keeps _ s rs' _ _ N A) as [->|A'].
+  - eapply targets_set_nth_new; eauto.
+  - apply targets_In. eauto.
+Qed.
+
+Lemma targets_remove_nth sl s i : In i (targets (remove_nth s sl)) -> In i (targets sl).
+Proof.
+  intros Hin. apply targets_In in Hin as [rs [A B]]. apply targets_In. exists rs. split; auto.
+  eapply remove_nth_In; eauto.
+Qed.
+
+Lemma targets_snoc_plain sl i : In i (targets (sl ++ [[(1%N, None)]])) <-> In i (targets sl).
+Proof. unfold targets. rewrite flat_map_app. simpl. rewrite in_app_iff. simpl. tauto. Qed.
+
+(* ---- relationships of one slide ---- *)
+Lemma relate_spec i rs rs' k : relate i rs = Ok (rs', k) ->
+  In (k, Some i) rs' /\ (forall j, In j (img_targets rs') <-> In j (img_targets rs) \/ j = i).
+Proof.
+  unfold relate. destruct (find (rel_targets i) rs) as [r|] eqn:F.
+  - intros Q; injection Q as <- <-. apply find_some in F as [F1 F2].
+    unfold rel_targets in F2. destruct r as [k [t|]]; simpl in *; [|discriminate].
+    apply N.eqb_eq in F2. subst. split; auto.
+    intros j. split; auto. intros [Hj| ->]; auto. apply img_targets_In. eauto.
+  - destruct (next_rid (map fst rs)) as [k'|]; [|discriminate].
+    intros Q; injection Q as <- <-. split.
+    + apply in_or_app; right; left; reflexivity.
+    + intros j. rewrite !img_targets_In. split.
+      * intros [n Hin]. apply in_app_or in Hin as [Hin|[E|[]]]; [left; eauto|].
+        injection E as _ ->. auto.
+      * intros [[n Hin]| ->]; [exists n; apply in_or_app; auto|].
+        exists k'. apply in_or_app; right; left; reflexivity.
+Qed.
+
+Lemma occupy_spec k : forall rs rs', occupy k rs = Ok rs' ->
+  forall j, In j (img_targets rs') <-> In j (img_targets rs).
+Proof.
+  induction k as [|k IH]; simpl; intros rs rs' E j.
+  - injection E as <-. tauto.
+  - destruct (next_rid (map fst rs)) as [r|]; [|discriminate].
+    rewrite (IH _ _ E j). rewrite !img_targets_In. split.
+    + intros [n Hin]. apply in_app_or in Hin as [Hin|[Q|[]]]; [eauto|discriminate].
+    + intros [n Hin]. exists n. apply in_or_app; auto.
+Qed.
+
+Lemma drop_rel_spec k rs rs' : drop_rel k rs = Ok rs' ->
+  forall j, In j (img_targets rs') -> In j (img_targets rs).
+Proof.
+  unfold drop_rel. destruct (existsb (has_key k) rs); [|discriminate].
+  intros Q; injection Q as <-. intros j. rewrite !img_targets_In.
+  intros [n Hin]. apply filter_In in Hin as [Hin _]. eauto.
+Qed.
+
 Section StoreProofs.
   Variable H : blob -> str.
   Variable fl : Q -> Q.
 
+  Definition ids (hp : list part) : list N := map p_id hp.
   Definition names (ps : list part) : list str := map p_name ps.
-  Definition vdigests (ps : list part) : list str := map (digest H) (filter visible ps).
   Definition cls_by_ct (p : part) : Prop := p_cls p = ct_is_imagepart (p_ct p).
 
-  (** the state invariant: part names are unique, no two indexed image parts have the
-      same digest, and the class of each part is the one its content type selects *)
-  Record InvP (ps : list part) : Prop := mkInvP {
-    inv_names : NoDup (names ps);
-    inv_digests : NoDup (vdigests ps);
-    inv_cls : Forall cls_by_ct ps }.
-  Definition Inv (st : state) : Prop := InvP (st_parts st).
+  (** the state invariant: object identities are unique and below the counter; among the
+      parts the package REACHES names are unique; among the image parts the look-up
+      iterates digests are unique; the class of each part is the one its content type
+      selects; every image relationship of a slide leads to an existing object *)
+  Record Inv (st : state) : Prop := mkInv {
+    inv_ids : NoDup (ids (st_heap st));
+    inv_next : Forall (fun p => (p_id p < st_next st)%N) (st_heap st);
+    inv_names : NoDup (names (store st));
+    inv_digests : NoDup (map (digest H) (index st));
+    inv_cls : Forall cls_by_ct (st_heap st);
+    inv_closed : forall i, In i (targets (st_slides st)) -> In i (ids (st_heap st)) }.
 
-  Lemma find_by_digest_some d ps p : find_by_digest H d ps = Some p ->
-    In p ps /\ visible p = true /\ digest H p = d.
+  Lemma indexed_reachable sl p : indexed sl p = true -> reachable sl p = true.
   Proof.
-    unfold find_by_digest. intros E. apply find_some in E as [E1 E2].
-    apply andb_true_iff in E2 as [E2 E3]. apply str_eqb_eq in E3. auto.
+    unfold indexed, reachable. intros E. apply andb_true_iff in E as [_ E]. rewrite E.
+    apply orb_true_r.
   Qed.
 
-  Lemma find_by_digest_none d ps : find_by_digest H d ps = None ->
-    forall p, In p ps -> visible p = true -> digest H p <> d.
+  Lemma index_In st p : In p (index st) <-> In p (st_heap st) /\ indexed (st_slides st) p = true.
+  Proof. unfold index. apply filter_In. Qed.
+
+  Lemma store_In st p : In p (store st) <-> In p (st_heap st) /\ reachable (st_slides st) p = true.
+  Proof. unfold store. apply filter_In. Qed.
+
+  Lemma index_store st p : In p (index st) -> In p (store st).
+  Proof. rewrite index_In, store_In. intros [A B]. split; auto. apply indexed_reachable; auto. Qed.
+
+  (** the look-up answers with a part the relationships lead to, or with none *)
+  Lemma find_by_digest_some d st p : find_by_digest H d st = Some p ->
+    In p (index st) /\ In p (store st) /\ digest H p = d.
   Proof.
-    unfold find_by_digest. intros E p Hp Hv Hd.
+    unfold find_by_digest. intros E. apply find_some in E as [E1 E2].
+    apply andb_true_iff in E2 as [E2 E3]. apply str_eqb_eq in E3.
+    assert (In p (index st)) by (apply index_In; auto).
+    split; auto. split; auto. apply index_store; auto.
+  Qed.
+
+  Lemma find_by_digest_none d st : find_by_digest H d st = None ->
+    forall p, In p (index st) -> digest H p <> d.
+  Proof.
+    unfold find_by_digest. intros E p Hp Hd. apply index_In in Hp as [Hp Hv].
     pose proof (find_none _ _ E p Hp) as F. simpl in F.
     rewrite Hv, Hd, str_eqb_refl in F. discriminate.
   Qed.
 
-  Lemma vdigests_In d ps : In d (vdigests ps) <->
-    exists p, In p ps /\ visible p = true /\ digest H p = d.
-  Proof.
-    unfold vdigests. rewrite in_map_iff. split.
-    - intros [p [E Hp]]. apply filter_In in Hp as [Hp Hv]. eauto.
-    - intros [p [Hp [Hv E]]]. exists p. split; auto. apply filter_In. auto.
-  Qed.
-
   (** with unique digests there is at most one indexed part per digest *)
-  Lemma digest_unique ps p q : NoDup (vdigests ps) ->
-    In p ps -> In q ps -> visible p = true -> visible q = true ->
-    digest H p = digest H q -> p = q.
+  Lemma digest_unique st p q : NoDup (map (digest H) (index st)) ->
+    In p (index st) -> In q (index st) -> digest H p = digest H q -> p = q.
+  Proof. intros Hn Hp Hq E. apply (nodup_map_inj (digest H) (index st) Hn); auto. Qed.
+
+  Lemma find_by_digest_is st p : Inv st -> In p (index st) ->
+    find_by_digest H (digest H p) st = Some p.
   Proof.
-    intros Hn Hp Hq Vp Vq E.
-    apply (nodup_map_inj (digest H) (filter visible ps) Hn); auto; apply filter_In; auto.
+    intros I Hp. destruct (find_by_digest H (digest H p) st) as [q|] eqn:F.
+    - destruct (find_by_digest_some _ _ _ F) as [A [_ B]].
+      f_equal. apply (digest_unique st); auto. apply (inv_digests st I).
+    - exfalso. exact (find_by_digest_none _ _ F p Hp eq_refl).
   Qed.
 
-  Lemma new_image_part_spec ps im p : new_image_part ps im = Ok p ->
-    p_blob p = i_blob im /\ p_meta p = i_meta im /\ visible p = true /\ cls_by_ct p /\
-    ~ In (p_name p) (names ps) /\
+  Lemma new_image_part_spec st im p : new_image_part st im = Ok p ->
+    p_id p = st_next st /\ p_blob p = i_blob im /\ p_meta p = i_meta im /\ p_cls p = true /\
+    p_fix p = false /\ p_rel p = false /\ cls_by_ct p /\
+    ~ In (p_name p) (names (store st)) /\
     exists e, image_ext (i_blob im) (i_meta im) = Ok e /\
-              p_name p = image_partname (next_image_idx (names ps)) e /\
+              p_name p = image_partname (next_image_idx (names (store st))) e /\
               ext (p_name p) = e /\ ext_content_type e = Ok (p_ct p).
   Proof.
     unfold new_image_part. destruct (image_ext (i_blob im) (i_meta im)) as [e|] eqn:E; cbn [bind]; [|discriminate].
     destruct (image_ext_ok _ _ _ E) as [He [ct [Hct Hcls]]].
-    fold (names ps). rewrite next_image_partname_ok. cbn [bind]. rewrite Hct. cbn [bind].
-    intros Q; injection Q as <-. cbn [p_blob p_meta p_name p_ct p_cls p_rel visible andb].
+    fold (names (store st)). rewrite next_image_partname_ok. cbn [bind]. rewrite Hct. cbn [bind].
+    intros Q; injection Q as <-. cbn [p_id p_blob p_meta p_name p_ct p_cls p_rel p_fix].
     repeat split; auto.
     - unfold cls_by_ct. simpl. auto.
-    - apply (next_image_partname_fresh (names ps) e); auto.
+    - apply (next_image_partname_fresh (names (store st)) e); auto.
     - exists e. repeat split; auto. apply ext_image_partname; auto.
   Qed.
 
-  (** the package-level lookup: either the indexed part with that digest, or a new part
-      appended under a fresh name holding exactly the bytes given *)
-  Lemma get_or_add_spec ps im ps' p : get_or_add H ps im = Ok (ps', p) ->
-    (ps' = ps /\ find_by_digest H (H (i_blob im)) ps = Some p) \/
-    (ps' = ps ++ [p] /\ find_by_digest H (H (i_blob im)) ps = None /\ new_image_part ps im = Ok p).
+  (** the package-level lookup: either the indexed part with that digest, or a new object
+      appended under a name no REACHABLE part has, holding exactly the bytes given *)
+  Lemma get_or_add_spec st im hp' p : get_or_add H st im = Ok (hp', p) ->
+    (hp' = st_heap st /\ find_by_digest H (H (i_blob im)) st = Some p) \/
+    (hp' = st_heap st ++ [p] /\ find_by_digest H (H (i_blob im)) st = None /\ new_image_part st im = Ok p).
   Proof.
-    unfold get_or_add. destruct (find_by_digest H (H (i_blob im)) ps) as [q|] eqn:F.
+    unfold get_or_add. destruct (find_by_digest H (H (i_blob im)) st) as [q|] eqn:F.
     - intros Q; injection Q as <- <-. left; auto.
-    - destruct (new_image_part ps im) as [q|] eqn:N; simpl; [|discriminate].
+    - destruct (new_image_part st im) as [q|] eqn:N; simpl; [|discriminate].
       intros Q; injection Q as <- <-. right; auto.
-  Qed.
-
-  Lemma get_or_add_result ps im ps' p : get_or_add H ps im = Ok (ps', p) ->
-    In p ps' /\ visible p = true /\ digest H p = H (i_blob im) /\
-    find_by_digest H (H (i_blob im)) ps' = Some p /\ (forall q, In q ps -> In q ps').
-  Proof.
-    intros G. destruct (get_or_add_spec _ _ _ _ G) as [[-> F]|[-> [F N]]].
-    - destruct (find_by_digest_some _ _ _ F) as [A [B C]]. auto.
-    - destruct (new_image_part_spec _ _ _ N) as [A [_ [B _]]].
-      assert (D : digest H p = H (i_blob im)) by (unfold digest; rewrite A; reflexivity).
-      repeat split; auto.
-      + apply in_or_app; right; left; reflexivity.
-      + unfold find_by_digest in *. rewrite find_snoc, F. rewrite B. unfold digest in D.
-        unfold digest. rewrite D, str_eqb_refl. reflexivity.
-      + intros q Hq. apply in_or_app; auto.
-  Qed.
-
-  Lemma get_or_add_inv ps im ps' p : InvP ps -> get_or_add H ps im = Ok (ps', p) -> InvP ps'.
-  Proof.
-    intros [I1 I2 I3] G. destruct (get_or_add_spec _ _ _ _ G) as [[-> F]|[-> [F N]]].
-    - constructor; auto.
-    - destruct (new_image_part_spec _ _ _ N) as [A [_ [B [C [D _]]]]].
-      constructor.
-      + unfold names. rewrite map_app. apply nodup_snoc; auto.
-      + unfold vdigests. rewrite filter_app, map_app. simpl. rewrite B. simpl.
-        apply nodup_snoc; auto. intros Hin. apply vdigests_In in Hin as [q [Hq [Vq Eq]]].
-        apply (find_by_digest_none _ _ F q Hq Vq). rewrite Eq. unfold digest. rewrite A. reflexivity.
-      + apply Forall_app; split; auto.
-  Qed.
-
-  (** a digest that is indexed stays indexed, by the same part *)
-  Lemma get_or_add_persist ps im ps' p d q : find_by_digest H d ps = Some q ->
-    get_or_add H ps im = Ok (ps', p) -> find_by_digest H d ps' = Some q.
-  Proof.
-    intros F G. destruct (get_or_add_spec _ _ _ _ G) as [[-> _]|[-> _]]; auto.
-    unfold find_by_digest in *. rewrite find_snoc, F. reflexivity.
-  Qed.
-
-  (** adding the same bytes again adds nothing and gives the same part *)
-  Lemma get_or_add_twice ps im im' ps1 p : get_or_add H ps im = Ok (ps1, p) ->
-    H (i_blob im') = H (i_blob im) -> get_or_add H ps1 im' = Ok (ps1, p).
-  Proof.
-    intros G E. destruct (get_or_add_result _ _ _ _ G) as [_ [_ [_ [F _]]]].
-    unfold get_or_add. rewrite E, F. reflexivity.
   Qed.
 
   Lemma reload_part_id p : cls_by_ct p -> reload_part p = p.
@@ -401,77 +545,283 @@ Section StoreProofs.
   Lemma reload_parts_id ps : Forall cls_by_ct ps -> map reload_part ps = ps.
   Proof. induction 1 as [|p ps Hp _ IH]; simpl; [reflexivity|]. rewrite reload_part_id, IH; auto. Qed.
 
-  (* ---- relationships ---- *)
-  Lemma relate_spec nm rs rs' k : relate nm rs = Ok (rs', k) ->
-    In (k, Some nm) rs' /\ (forall r, In r rs -> In r rs').
+  (* ---- the effect of one step on objects and relationships ---- *)
+  Definition T (st : state) : list N := targets (st_slides st).
+
+  Lemma step_effect st o st' r : Inv st -> step H fl st o = (st', r) ->
+    (st_next st <= st_next st')%N /\
+    ( (st_heap st' = st_heap st /\ removal o = false /\ exists extra,
+         (forall i, In i (T st') <-> In i (T st) \/ In i extra) /\
+         (forall i, In i extra -> exists p0, In p0 (index st) /\ p_id p0 = i))
+   \/ (exists im p, new_image_part st im = Ok p /\ find_by_digest H (H (i_blob im)) st = None /\
+         removal o = false /\ st_heap st' = st_heap st ++ [p] /\ st_next st' = N.succ (st_next st) /\
+         (forall i, In i (T st') <-> In i (T st) \/ i = p_id p))
+   \/ (st_heap st' = st_heap st /\ removal o = true /\ forall i, In i (T st') -> In i (T st))
+   \/ (st_heap st' = store st /\ st_slides st' = st_slides st /\ o = OReload)).
   Proof.
-    unfold relate. destruct (find (rel_targets nm) rs) as [r|] eqn:F.
-    - intros Q; injection Q as <- <-. apply find_some in F as [F1 F2].
-      unfold rel_targets in F2. destruct r as [k [t|]]; simpl in *; [|discriminate].
-      apply str_eqb_eq in F2. subst. auto.
-    - destruct (next_rid (map fst rs)) as [k'|]; [|discriminate].
-      intros Q; injection Q as <- <-. split.
-      + apply in_or_app; right; left; reflexivity.
-      + intros r Hr. apply in_or_app; auto.
+    intros I. unfold T.
+    assert (Same : (st_next st <= st_next st)%N /\
+      ((st_heap st = st_heap st /\ false = false /\ exists extra : list N,
+         (forall i, In i (targets (st_slides st)) <-> In i (targets (st_slides st)) \/ In i extra) /\
+         (forall i, In i extra -> exists p0, In p0 (index st) /\ p_id p0 = i)))).
+    { split; [lia|]. split; auto. split; auto. exists []. split; [intros; simpl; tauto|intros i []]. }
+    destruct o as [|s k|s im u|s|s k|]; simpl.
+    - intros Q; injection Q as <- <-. simpl. split; [lia|]. left. split; auto. split; auto.
+      exists []. split; [|intros i []]. intros i. rewrite targets_snoc_plain. simpl. tauto.
+    - destruct (nth_error (st_slides st) s) as [rs|] eqn:N.
+      2:{ intros Q; injection Q as <- <-. destruct Same as [S1 S2]. split; auto. }
+      destruct (occupy k rs) as [rs'|] eqn:O.
+      2:{ intros Q; injection Q as <- <-. destruct Same as [S1 S2]. split; auto. }
+      intros Q; injection Q as <- <-. simpl. split; [lia|]. left. split; auto. split; auto.
+      exists []. split; [|intros i []]. intros i. simpl. split.
+      + intros Hin. left. destruct (targets_set_nth_upper _ _ _ _ Hin) as [A|A]; auto.
+        apply (occupy_spec _ _ _ O) in A. eapply targets_nth; eauto.
+      + intros [Hin|[]]. eapply targets_set_nth_lower; eauto.
+        intros j Hj. apply (occupy_spec _ _ _ O). exact Hj.
+    - destruct (nth_error (st_slides st) s) as [rs|] eqn:N.
+      2:{ intros Q; injection Q as <- <-. destruct Same as [S1 S2]. split; auto. }
+      destruct (get_or_add H st im) as [[hp' p]|] eqn:G.
+      2:{ intros Q; injection Q as <- <-. destruct Same as [S1 S2]. split; auto. }
+      destruct (relate (p_id p) rs) as [[rs' rid]|] eqn:R.
+      2:{ intros Q; injection Q as <- <-. destruct Same as [S1 S2]. split; auto. }
+      intros Q; injection Q as <- <-. simpl. split; [lia|].
+      destruct (relate_spec _ _ _ _ R) as [R1 R2].
+      assert (TT : forall i, In i (targets (set_nth s rs' (st_slides st))) <->
+                             In i (targets (st_slides st)) \/ i = p_id p).
+      { intros i. split.
+        - intros Hin. destruct (targets_set_nth_upper _ _ _ _ Hin) as [A|A]; auto.
+          apply R2 in A as [A| ->]; auto. left. eapply targets_nth; eauto.
+        - intros [Hin| ->].
+          + eapply targets_set_nth_lower; eauto. intros j Hj. apply R2. auto.
+          + eapply targets_set_nth_new; eauto. apply R2. auto. }
+      destruct (get_or_add_spec _ _ _ _ G) as [[-> F]|[-> [F Nw]]].
+      + left. split; auto. split; auto. exists [p_id p]. split.
+        * intros i. rewrite TT. simpl. intuition.
+        * intros i [<-|[]]. exists p. split; auto. apply (find_by_digest_some _ _ _ F).
+      + right; left. exists im, p. repeat split; auto; try (apply TT; auto).
+        pose proof (proj1 (new_image_part_spec _ _ _ Nw)) as Pid. lia.
+    - destruct (nth_error (st_slides st) s) as [rs|] eqn:N.
+      2:{ intros Q; injection Q as <- <-. split; [lia|]. right; right; left. auto. }
+      intros Q; injection Q as <- <-. simpl. split; [lia|]. right; right; left.
+      split; auto. split; auto. intros i. apply targets_remove_nth.
+    - destruct (nth_error (st_slides st) s) as [rs|] eqn:N.
+      2:{ intros Q; injection Q as <- <-. split; [lia|]. right; right; left. auto. }
+      destruct (drop_rel k rs) as [rs'|] eqn:D.
+      2:{ intros Q; injection Q as <- <-. split; [lia|]. right; right; left. auto. }
+      intros Q; injection Q as <- <-. simpl. split; [lia|]. right; right; left.
+      split; auto. split; auto. intros i Hin.
+      destruct (targets_set_nth_upper _ _ _ _ Hin) as [A|A]; auto.
+      apply (drop_rel_spec _ _ _ D) in A. eapply targets_nth; eauto.
+    - intros Q; injection Q as <- <-. simpl. split; [lia|]. right; right; right.
+      split; auto. apply reload_parts_id.
+      apply Forall_forall. intros p Hp. apply store_In in Hp as [Hp _].
+      exact (proj1 (Forall_forall _ _) (inv_cls st I) p Hp).
   Qed.
 
-  (* ---- one step ---- *)
-  Lemma step_parts st o st' r : step H fl st o = (st', r) ->
-    st_parts st' = st_parts st \/
-    (exists im p, get_or_add H (st_parts st) im = Ok (st_parts st', p)) \/
-    st_parts st' = map reload_part (st_parts st).
+  Lemma imgrel_iff sl p : imgrel sl p = true <-> p_rel p = true \/ In (p_id p) (targets sl).
+  Proof. unfold imgrel, targeted. rewrite orb_true_iff, memN_In. tauto. Qed.
+
+  Lemma id_in_heap st p q : Inv st -> In p (st_heap st) -> In q (st_heap st) -> p_id p = p_id q -> p = q.
+  Proof. intros I. apply (nodup_map_inj p_id (st_heap st)). apply (inv_ids st I). Qed.
+
+  (** the same effect in terms of what the package reaches and what the look-up iterates *)
+  Lemma step_store st o st' r : Inv st -> step H fl st o = (st', r) ->
+    (st_next st <= st_next st')%N /\
+    ( (st_heap st' = st_heap st /\ removal o = false /\ store st' = store st /\ index st' = index st /\
+       (forall q, In q (st_heap st) -> imgrel (st_slides st') q = imgrel (st_slides st) q) /\
+       (forall i, In i (T st') -> In i (ids (st_heap st))))
+   \/ (exists im p, new_image_part st im = Ok p /\ find_by_digest H (H (i_blob im)) st = None /\
+         removal o = false /\ st_heap st' = st_heap st ++ [p] /\ st_next st' = N.succ (st_next st) /\
+         store st' = store st ++ [p] /\ index st' = index st ++ [p] /\
+         (forall q, In q (st_heap st) -> imgrel (st_slides st') q = imgrel (st_slides st) q) /\
+         imgrel (st_slides st') p = true /\
+         (forall i, In i (T st') -> In i (ids (st_heap st)) \/ i = p_id p))
+   \/ (st_heap st' = st_heap st /\ removal o = true /\
+       (forall q, imgrel (st_slides st') q = true -> imgrel (st_slides st) q = true) /\
+       (forall i, In i (T st') -> In i (T st)))
+   \/ (st_heap st' = store st /\ st_slides st' = st_slides st /\ o = OReload)).
   Proof.
-    destruct o as [|s k|s im u|]; simpl.
-    - intros Q; injection Q as <- <-. auto.
-    - destruct (nth_error (st_slides st) s); [|intros Q; injection Q as <- <-; auto].
-      destruct (occupy k l); intros Q; injection Q as <- <-; auto.
-    - destruct (nth_error (st_slides st) s) as [rs|]; [|intros Q; injection Q as <- <-; auto].
-      destruct (get_or_add H (st_parts st) im) as [[ps' p]|] eqn:G; [|intros Q; injection Q as <- <-; auto].
-      destruct (relate (p_name p) rs) as [[rs' rid]|]; intros Q; injection Q as <- <-; auto.
-      right; left. exists im, p. exact G.
-    - intros Q; injection Q as <- <-. auto.
+    intros I S. destruct (step_effect _ _ _ _ I S) as [Nx Eff]. split; auto.
+    destruct Eff as [[Hh [Rm [extra [TT Ex]]]]|[[im [p [Nw [F [Rm [Hh [Nxt TT]]]]]]]|[[Hh [Rm TT]]|Re]]].
+    - left.
+      assert (Q : forall q, In q (st_heap st) -> imgrel (st_slides st') q = imgrel (st_slides st) q).
+      { intros q Hq. apply Bool.eq_iff_eq_true. rewrite !imgrel_iff. fold (T st') (T st). rewrite TT.
+        split; [|tauto]. intros [A|[A|A]]; auto.
+        destruct (Ex _ A) as [p0 [P1 P2]]. apply index_In in P1 as [P1 P3].
+        assert (p0 = q) by (apply (id_in_heap st); auto). subst p0.
+        apply imgrel_iff. unfold indexed in P3. apply andb_true_iff in P3. tauto. }
+      repeat split; auto.
+      + unfold store. rewrite Hh. apply filter_ext_in. intros q Hq. unfold reachable. rewrite Q; auto.
+      + unfold index. rewrite Hh. apply filter_ext_in. intros q Hq. unfold indexed. rewrite Q; auto.
+      + intros i Hi. apply TT in Hi as [Hi|Hi]; [apply (inv_closed st I); auto|].
+        destruct (Ex _ Hi) as [p0 [P1 P2]]. apply index_In in P1 as [P1 _].
+        subst i. apply in_map. exact P1.
+    - right; left. exists im, p.
+      destruct (new_image_part_spec _ _ _ Nw) as [Pid [_ [_ [Pc [Pf [Pr _]]]]]].
+      assert (Fresh : forall q, In q (st_heap st) -> p_id q <> p_id p).
+      { intros q Hq E. pose proof (proj1 (Forall_forall _ _) (inv_next st I) q Hq) as L. simpl in L. lia. }
+      assert (Q : forall q, In q (st_heap st) -> imgrel (st_slides st') q = imgrel (st_slides st) q).
+      { intros q Hq. apply Bool.eq_iff_eq_true. rewrite !imgrel_iff. fold (T st') (T st). rewrite TT.
+        split; [|tauto]. intros [A|[A|A]]; auto. exfalso. exact (Fresh q Hq A). }
+      assert (P : imgrel (st_slides st') p = true).
+      { apply imgrel_iff. right. fold (T st'). apply TT. auto. }
+      repeat split; auto.
+      + unfold store. rewrite Hh, filter_app. simpl. unfold reachable at 2. rewrite P, orb_true_r.
+        f_equal. apply filter_ext_in. intros q Hq. unfold reachable. rewrite Q; auto.
+      + unfold index. rewrite Hh, filter_app. simpl. unfold indexed at 2. rewrite P, Pc. simpl.
+        f_equal. apply filter_ext_in. intros q Hq. unfold indexed. rewrite Q; auto.
+      + intros i Hi. apply TT in Hi as [Hi|Hi]; auto. left. apply (inv_closed st I); auto.
+    - right; right; left. repeat split; auto.
+      intros q. rewrite !imgrel_iff. intros [A|A]; auto.
+    - right; right; right. exact Re.
+  Qed.
+
+  Lemma reload_store st st' : st_heap st' = store st -> st_slides st' = st_slides st ->
+    store st' = store st /\ index st' = index st.
+  Proof.
+    intros Hh Hs. unfold store, index. rewrite Hh, Hs. split.
+    - unfold store. apply filter_filter_imp. auto.
+    - unfold store. apply filter_filter_imp. intros a _. apply indexed_reachable.
   Qed.
 
   Lemma step_inv st o st' r : Inv st -> step H fl st o = (st', r) -> Inv st'.
   Proof.
-    unfold Inv. intros I S. destruct (step_parts _ _ _ _ S) as [E|[[im [p G]]|E]].
-    - rewrite E; auto.
-    - eapply get_or_add_inv; eauto.
-    - rewrite E, reload_parts_id; auto. apply inv_cls; auto.
+    intros I S. destruct (step_store _ _ _ _ I S) as [Nx Eff].
+    assert (NX : forall hp, Forall (fun p => (p_id p < st_next st)%N) hp ->
+                            Forall (fun p => (p_id p < st_next st')%N) hp).
+    { intros hp. apply Forall_impl. intros p L. lia. }
+    destruct I as [I1 I2 I3 I4 I5 I6].
+    destruct Eff as [[Hh [_ [Hs [Hi [_ Cl]]]]]|[[im [p [Nw [F [_ [Hh [Nxt [Hs [Hi [_ [_ Cl]]]]]]]]]]]|[[Hh [_ [Q TT]]]|[Hh [Hsl _]]]]].
+    - constructor; rewrite ?Hh, ?Hs, ?Hi; auto.
+    - destruct (new_image_part_spec _ _ _ Nw) as [Pid [Pb [_ [Pc [_ [_ [Pcls [Pn _]]]]]]]].
+      constructor; rewrite ?Hh, ?Hs, ?Hi.
+      + unfold ids. rewrite map_app. apply nodup_snoc; auto. simpl.
+        intros Hin. apply in_map_iff in Hin as [q [E Hq]].
+        pose proof (proj1 (Forall_forall _ _) I2 q Hq) as L. simpl in L. lia.
+      + apply Forall_app. split; [apply NX; auto|]. constructor; [|constructor].
+        lia.
+      + unfold names. rewrite map_app. apply nodup_snoc; auto.
+      + rewrite map_app. apply nodup_snoc; auto. simpl. intros Hin.
+        apply in_map_iff in Hin as [q [E Hq]].
+        apply (find_by_digest_none _ _ F q Hq). rewrite E. unfold digest. rewrite Pb. reflexivity.
+      + apply Forall_app. split; auto.
+      + intros i Hin. unfold ids. rewrite map_app. apply in_or_app. simpl.
+        destruct (Cl _ Hin) as [A| ->]; auto.
+    - constructor; rewrite ?Hh; auto.
+      + unfold names, store. rewrite Hh.
+        apply (nodup_map_filter_sub p_name (reachable (st_slides st))); auto.
+        intros a _. unfold reachable. rewrite !orb_true_iff. intros [A|A]; auto.
+      + unfold index. rewrite Hh.
+        apply (nodup_map_filter_sub (digest H) (indexed (st_slides st))); auto.
+        intros a _. unfold indexed. rewrite !andb_true_iff. intros [A B]; auto.
+    - destruct (reload_store st st' Hh Hsl) as [Hs Hi].
+      assert (Sub : forall q, In q (store st) -> In q (st_heap st)) by (intros q Hq; apply store_In in Hq; tauto).
+      constructor; rewrite ?Hs, ?Hi, ?Hh, ?Hsl; auto.
+      + unfold ids, store. apply nodup_map_filter. auto.
+      + apply Forall_forall. intros q Hq. apply Sub in Hq.
+        pose proof (proj1 (Forall_forall _ _) I2 q Hq) as L. simpl in L. lia.
+      + apply Forall_forall. intros q Hq. apply (proj1 (Forall_forall _ _) I5 q). auto.
+      + intros i Hin. pose proof (I6 i Hin) as Hid. apply in_map_iff in Hid as [q [E Hq]].
+        apply in_map_iff. exists q. split; auto. apply store_In. split; auto.
+        unfold reachable. apply orb_true_iff. right. apply imgrel_iff. right. rewrite E. exact Hin.
   Qed.
 
-  Lemma step_persist st o st' r d q : Inv st -> step H fl st o = (st', r) ->
-    find_by_digest H d (st_parts st) = Some q -> find_by_digest H d (st_parts st') = Some q.
+  (** an object keeps its identity: whatever carries the identity of [p] in the heap is [p],
+      and no later object gets that identity *)
+  Definition owns (st : state) (p : part) : Prop :=
+    (p_id p < st_next st)%N /\ forall q, In q (st_heap st) -> p_id q = p_id p -> q = p.
+
+  Lemma owns_member st p : Inv st -> In p (st_heap st) -> owns st p.
   Proof.
-    intros I S F. destruct (step_parts _ _ _ _ S) as [E|[[im [p G]]|E]].
-    - rewrite E; auto.
-    - eapply get_or_add_persist; eauto.
-    - rewrite E, reload_parts_id; auto. apply inv_cls; auto.
+    intros I Hp. split.
+    - exact (proj1 (Forall_forall _ _) (inv_next st I) p Hp).
+    - intros q Hq E. apply (id_in_heap st); auto.
   Qed.
 
-  Lemma step_keeps st o st' r q : Inv st -> step H fl st o = (st', r) ->
-    In q (st_parts st) -> In q (st_parts st').
+  Lemma step_heap st o st' r q : Inv st -> step H fl st o = (st', r) ->
+    In q (st_heap st') -> In q (st_heap st) \/ p_id q = st_next st.
   Proof.
-    intros I S F. destruct (step_parts _ _ _ _ S) as [E|[[im [p G]]|E]].
-    - rewrite E; auto.
-    - destruct (get_or_add_result _ _ _ _ G) as [_ [_ [_ [_ K]]]]. auto.
-    - rewrite E, reload_parts_id; auto. apply inv_cls; auto.
+    intros I S Hq. destruct (step_store _ _ _ _ I S) as [_ Eff].
+    destruct Eff as [[Hh _]|[[im [p [Nw [_ [_ [Hh _]]]]]]|[[Hh _]|[Hh _]]]]; rewrite Hh in Hq; auto.
+    - apply in_app_or in Hq as [Hq|[<-|[]]]; auto.
+      right. exact (proj1 (new_image_part_spec _ _ _ Nw)).
+    - left. apply store_In in Hq. tauto.
+  Qed.
+
+  Lemma step_owns st o st' r p : Inv st -> step H fl st o = (st', r) -> owns st p -> owns st' p.
+  Proof.
+    intros I S [L O]. pose proof (proj1 (step_store _ _ _ _ I S)) as Nx. split; [lia|].
+    intros q Hq E. destruct (step_heap _ _ _ _ _ I S Hq) as [A|A]; [auto|]. lia.
+  Qed.
+
+  (** reachability of an existing object never grows: an object no relationship leads to
+      is never handed out again *)
+  Lemma step_reach_mono st o st' r q : Inv st -> step H fl st o = (st', r) ->
+    In q (st_heap st) -> reachable (st_slides st') q = true -> reachable (st_slides st) q = true.
+  Proof.
+    intros I S Hq. destruct (step_store _ _ _ _ I S) as [_ Eff]. unfold reachable.
+    destruct Eff as [[_ [_ [_ [_ [Q _]]]]]|[[im [p [_ [_ [_ [_ [_ [_ [_ [Q _]]]]]]]]]]|[[_ [_ [Q _]]]|[_ [Hs _]]]]].
+    - rewrite Q; auto.
+    - rewrite Q; auto.
+    - rewrite !orb_true_iff. intros [A|A]; auto.
+    - rewrite Hs. auto.
+  Qed.
+
+  (** without a removal nothing the package reaches is lost *)
+  Lemma step_keeps st o st' r q : Inv st -> step H fl st o = (st', r) -> removal o = false ->
+    In q (store st) -> In q (store st').
+  Proof.
+    intros I S Rm Hq. destruct (step_store _ _ _ _ I S) as [_ Eff].
+    destruct Eff as [[_ [_ [Hs _]]]|[[im [p [_ [_ [_ [_ [_ [Hs _]]]]]]]]|[[_ [R _]]|[Hh [Hsl _]]]]].
+    - rewrite Hs; auto.
+    - rewrite Hs. apply in_or_app; auto.
+    - congruence.
+    - rewrite (proj1 (reload_store st st' Hh Hsl)). auto.
   Qed.
 
   (** what a successful image step reports *)
-  Lemma step_image st s im u st' name rid e ct a b :
-    step H fl st (OImage s im u) = (st', Ok (OutImg name rid e ct a b)) ->
-    exists p rs rs', get_or_add H (st_parts st) im = Ok (st_parts st', p) /\
-      name = p_name p /\ ct = p_ct p /\ e = ext name /\
-      nth_error (st_slides st) s = Some rs /\ relate name rs = Ok (rs', rid) /\
+  Lemma step_image st s im u st' pid name rid e ct a b :
+    step H fl st (OImage s im u) = (st', Ok (OutImg pid name rid e ct a b)) ->
+    exists p rs rs', get_or_add H st im = Ok (st_heap st', p) /\
+      pid = p_id p /\ name = p_name p /\ ct = p_ct p /\ e = ext name /\
+      nth_error (st_slides st) s = Some rs /\ relate pid rs = Ok (rs', rid) /\
       st_slides st' = set_nth s rs' (st_slides st) /\
       apply_use fl p u = Ok (a, b).
   Proof.
     simpl. destruct (nth_error (st_slides st) s) as [rs|]; [|intros Q; discriminate].
-    destruct (get_or_add H (st_parts st) im) as [[ps' p]|] eqn:G; [|intros Q; discriminate].
-    destruct (relate (p_name p) rs) as [[rs' k]|] eqn:R; [|intros Q; discriminate].
+    destruct (get_or_add H st im) as [[hp' p]|] eqn:G; [|intros Q; discriminate].
+    destruct (relate (p_id p) rs) as [[rs' k]|] eqn:R; [|intros Q; discriminate].
     destruct (apply_use fl p u) as [[a' b']|] eqn:U; simpl; intros Q; [|discriminate].
-    injection Q as <- <- <- <- <- <- <-. exists p, rs, rs'. simpl. repeat split; auto.
+    injection Q as <- <- <- <- <- <- <- <-. exists p, rs, rs'. simpl. repeat split; auto.
+  Qed.
+
+  (** ... and the object it reports: in the heap, of the ImagePart class, holding the digest
+      asked for, and the target of the relationship the slide now has *)
+  Lemma step_image_part st s im u st' pid name rid e ct a b : Inv st ->
+    step H fl st (OImage s im u) = (st', Ok (OutImg pid name rid e ct a b)) ->
+    exists p, In p (index st') /\ p_id p = pid /\ p_name p = name /\ p_ct p = ct /\ e = ext name /\
+              digest H p = H (i_blob im) /\
+              (find_by_digest H (H (i_blob im)) st = None -> p_blob p = i_blob im) /\
+              exists rs', nth_error (st_slides st') s = Some rs' /\ In (rid, Some pid) rs'.
+  Proof.
+    intros I S. destruct (step_image _ _ _ _ _ _ _ _ _ _ _ _ S) as [p [rs [rs' [G [E1 [E2 [E3 [E4 [N [R [Sl _]]]]]]]]]]].
+    destruct (relate_spec _ _ _ _ R) as [R1 R2].
+    assert (Tg : In pid (targets (st_slides st'))).
+    { rewrite Sl. eapply targets_set_nth_new; eauto. apply R2. auto. }
+    assert (Hp : In p (st_heap st') /\ p_cls p = true /\ digest H p = H (i_blob im) /\
+                 (find_by_digest H (H (i_blob im)) st = None -> p_blob p = i_blob im)).
+    { destruct (get_or_add_spec _ _ _ _ G) as [[Hh F]|[Hh [F Nw]]].
+      - destruct (find_by_digest_some _ _ _ F) as [A [_ B]]. apply index_In in A as [A1 A2].
+        rewrite Hh. repeat split; auto.
+        + unfold indexed in A2. apply andb_true_iff in A2. tauto.
+        + congruence.
+      - destruct (new_image_part_spec _ _ _ Nw) as [_ [Pb [_ [Pc _]]]]. rewrite Hh. repeat split; auto.
+        + apply in_or_app; right; left; reflexivity.
+        + unfold digest. rewrite Pb. reflexivity. }
+    destruct Hp as [P1 [P2 [P3 P4]]].
+    exists p. repeat split; auto.
+    - apply index_In. split; auto. unfold indexed. rewrite P2. simpl. apply imgrel_iff. right. congruence.
+    - exists rs'. rewrite Sl. split; [apply (nth_set_nth _ _ _ _ N)|exact R1].
   Qed.
 
   (* ---- histories ---- *)
@@ -489,41 +839,59 @@ Section StoreProofs.
     rewrite final_cons. apply IH. destruct (step H fl st o) as [st1 x] eqn:S. eapply step_inv; eauto.
   Qed.
 
-  Lemma run_persist ops : forall st d q, Inv st ->
-    find_by_digest H d (st_parts st) = Some q ->
-    find_by_digest H d (st_parts (final H fl st ops)) = Some q.
+  Lemma run_owns ops : forall st p, Inv st -> owns st p -> owns (final H fl st ops) p.
   Proof.
-    induction ops as [|o r IH]; intros st d q I F; [exact F|].
+    induction ops as [|o r IH]; intros st p I O; [exact O|].
     rewrite final_cons. destruct (step H fl st o) as [st1 x] eqn:S. simpl.
-    apply IH; [eapply step_inv; eauto | eapply step_persist; eauto].
+    apply IH; [eapply step_inv; eauto | eapply step_owns; eauto].
   Qed.
 
-  Lemma run_keeps ops : forall st q, Inv st -> In q (st_parts st) ->
-    In q (st_parts (final H fl st ops)).
+  Lemma run_keeps ops : forall st q, Inv st -> forallb (fun o => negb (removal o)) ops = true ->
+    In q (store st) -> In q (store (final H fl st ops)).
   Proof.
-    induction ops as [|o r IH]; intros st q I F; [exact F|].
+    induction ops as [|o r IH]; intros st q I Rm F; [exact F|].
+    simpl in Rm. apply andb_true_iff in Rm as [Rm1 Rm2]. apply negb_true_iff in Rm1.
     rewrite final_cons. destruct (step H fl st o) as [st1 x] eqn:S. simpl.
-    apply IH; [eapply step_inv; eauto | eapply step_keeps; eauto].
+    apply IH; auto; [eapply step_inv; eauto | eapply step_keeps; eauto].
   Qed.
 
-  (** the i-th operation stored an image and reported (name, ext, ct): at the end of the
-      whole history the index maps the digest of those bytes to a part of that name *)
-  Lemma run_stored ops : forall st i s im u name rid e ct a b, Inv st ->
+  (** an object the package does not reach stays unreached for the rest of the history *)
+  Lemma run_orphan ops : forall st p, Inv st -> owns st p ->
+    (forall q, In q (st_heap st) -> p_id q = p_id p -> reachable (st_slides st) q = false) ->
+    forall q, In q (st_heap (final H fl st ops)) -> p_id q = p_id p ->
+              reachable (st_slides (final H fl st ops)) q = false.
+  Proof.
+    induction ops as [|o r IH]; intros st p I O D; [exact D|].
+    rewrite final_cons. destruct (step H fl st o) as [st1 x] eqn:S. simpl.
+    apply (IH st1 p); [eapply step_inv; eauto | eapply step_owns; eauto |].
+    intros q Hq E. destruct (step_heap _ _ _ _ _ I S Hq) as [A|A].
+    - destruct (reachable (st_slides st1) q) eqn:R; auto.
+      rewrite <- (D q A E). symmetry. eapply step_reach_mono; eauto.
+    - destruct O as [L _]. lia.
+  Qed.
+
+  (** the i-th operation stored an image and reported the object pid under (name, ext, ct):
+      that object has those attributes and that digest, and to the end of the history the
+      identity pid means that object and no other *)
+  Lemma run_stored ops : forall st i s im u pid name rid e ct a b, Inv st ->
     nth_error ops i = Some (OImage s im u) ->
-    nth_error (snd (run H fl st ops)) i = Some (Ok (OutImg name rid e ct a b)) ->
-    exists p, find_by_digest H (H (i_blob im)) (st_parts (final H fl st ops)) = Some p /\
-              p_name p = name /\ p_ct p = ct /\ e = ext name.
+    nth_error (snd (run H fl st ops)) i = Some (Ok (OutImg pid name rid e ct a b)) ->
+    exists p, p_id p = pid /\ p_name p = name /\ p_ct p = ct /\ e = ext name /\ p_cls p = true /\
+              digest H p = H (i_blob im) /\ owns (final H fl st ops) p.
   Proof.
-    induction ops as [|o r IH]; intros st i s im u name rid e ct a b I N1 N2.
+    induction ops as [|o r IH]; intros st i s im u pid name rid e ct a b I N1 N2.
     - destruct i; discriminate.
     - rewrite run_cons in N2. rewrite final_cons.
       destruct (step H fl st o) as [st1 x] eqn:S. simpl in *.
       assert (I1 : Inv st1) by (eapply step_inv; eauto).
       destruct i as [|i]; simpl in *.
       + injection N1 as ->. injection N2 as ->.
-        destruct (step_image _ _ _ _ _ _ _ _ _ _ _ S) as [p [rs [rs' [G [E1 [E2 [E3 _]]]]]]].
-        destruct (get_or_add_result _ _ _ _ G) as [_ [_ [_ [F _]]]].
-        exists p. split; [apply run_persist; auto|]. auto.
+        destruct (step_image_part _ _ _ _ _ _ _ _ _ _ _ _ I S) as [p [P1 [P2 [P3 [P4 [P5 [P6 _]]]]]]].
+        apply index_In in P1 as [P1 P7].
+        exists p. repeat split; auto.
+        * unfold indexed in P7. apply andb_true_iff in P7. tauto.
+        * apply run_owns; auto. apply owns_member; auto.
+        * apply run_owns; auto. apply owns_member; auto.
       + eapply IH; eauto.
   Qed.
 End StoreProofs.
@@ -533,110 +901,204 @@ Section StoreTheorems.
   Variable H : blob -> str.
   Variable fl : Q -> Q.
 
-  (** the i-th operation of the history is an image addition that succeeded *)
-  Definition stored_at (st : state) (ops : list op) (i : nat) (im : image) (name e ct : str) : Prop :=
+  (** the i-th operation of the history is an image addition that succeeded and answered
+      with the part object pid *)
+  Definition stored_at (st : state) (ops : list op) (i : nat) (im : image) (pid : N) (name e ct : str) : Prop :=
     exists s u rid a b,
       nth_error ops i = Some (OImage s im u) /\
-      nth_error (snd (run H fl st ops)) i = Some (Ok (OutImg name rid e ct a b)).
+      nth_error (snd (run H fl st ops)) i = Some (Ok (OutImg pid name rid e ct a b)).
 
-  Lemma once st ops i im name e ct : Inv H st -> stored_at st ops i im name e ct ->
-    let ps := st_parts (final H fl st ops) in
-    exists p, In p ps /\ visible p = true /\ p_name p = name /\ p_ct p = ct /\ ext (p_name p) = e /\
+  (** some image relationship of a slide still leads to the object at the end *)
+  Definition still_related (st : state) (ops : list op) (pid : N) : Prop :=
+    In pid (targets (st_slides (final H fl st ops))).
+
+  Lemma once st ops i im pid name e ct : Inv H st -> stored_at st ops i im pid name e ct ->
+    still_related st ops pid ->
+    let fin := final H fl st ops in
+    exists p, In p (index fin) /\ In p (store fin) /\
+              p_id p = pid /\ p_name p = name /\ p_ct p = ct /\ ext (p_name p) = e /\
               digest H p = H (i_blob im) /\
-              forall q, In q ps -> visible q = true -> digest H q = H (i_blob im) -> q = p.
+              (forall q, In q (index fin) -> digest H q = H (i_blob im) -> q = p) /\
+              (forall q, In q (store fin) -> p_name q = name -> q = p).
   Proof.
-    intros I [s [u [rid [a [b [N1 N2]]]]]] ps.
-    destruct (run_stored H fl ops st i s im u name rid e ct a b I N1 N2) as [p [F [E1 [E2 E3]]]].
-    destruct (find_by_digest_some H _ _ _ F) as [A [B C]].
+    intros I [s [u [rid [a [b [N1 N2]]]]]] L fin.
+    destruct (run_stored H fl ops st i s im u pid name rid e ct a b I N1 N2) as [p [E1 [E2 [E3 [E4 [E5 [E6 O]]]]]]].
+    pose proof (run_inv H fl ops st I) as If. fold fin in If, O.
+    unfold still_related in L. fold fin in L.
+    pose proof (inv_closed H fin If pid L) as Hid. apply in_map_iff in Hid as [q [Eq Hq]].
+    assert (q = p) by (apply (proj2 O); auto; congruence). subst q.
+    assert (Ix : In p (index fin)).
+    { apply index_In. split; auto. unfold indexed. rewrite E5. simpl. apply imgrel_iff. right. congruence. }
     exists p. subst. repeat split; auto.
-    intros q Hq Vq Dq. symmetry.
-    apply (digest_unique H ps); auto.
-    - apply (inv_digests H). apply (run_inv H fl ops st I).
-    - congruence.
+    - apply index_store; auto.
+    - intros q Hq' Dq. apply (digest_unique H fin); auto; try congruence. apply (inv_digests H fin If).
+    - intros q Hq' Nq. apply (nodup_map_inj p_name (store fin)); auto; try congruence.
+      + apply (inv_names H fin If).
+      + apply index_store; auto.
   Qed.
 
-  Lemma same_part st ops i j im im' name e ct name' e' ct' : Inv H st ->
-    stored_at st ops i im name e ct -> stored_at st ops j im' name' e' ct' ->
-    H (i_blob im) = H (i_blob im') -> name = name' /\ e = e' /\ ct = ct'.
+  (** whether or not anything still leads to it: the object is never altered, and its
+      identity is never given to another object *)
+  Lemma immutable st ops i im pid name e ct : Inv H st -> stored_at st ops i im pid name e ct ->
+    forall q, In q (st_heap (final H fl st ops)) -> p_id q = pid ->
+      p_name q = name /\ p_ct q = ct /\ ext (p_name q) = e /\ p_cls q = true /\ digest H q = H (i_blob im).
   Proof.
-    intros I S1 S2 E.
-    destruct (once _ _ _ _ _ _ _ I S1) as [p [P1 [P2 [P3 [P4 [P5 [P6 P7]]]]]]].
-    destruct (once _ _ _ _ _ _ _ I S2) as [q [Q1 [Q2 [Q3 [Q4 [Q5 [Q6 Q7]]]]]]].
-    assert (q = p) by (apply P7; auto; congruence). subst q.
+    intros I [s [u [rid [a [b [N1 N2]]]]]] q Hq Eq.
+    destruct (run_stored H fl ops st i s im u pid name rid e ct a b I N1 N2) as [p [E1 [E2 [E3 [E4 [E5 [E6 O]]]]]]].
+    assert (q = p) by (apply (proj2 O); auto; congruence). subst q. subst. auto.
+  Qed.
+
+  Lemma same_part st ops i j im im' pid pid' name e ct name' e' ct' : Inv H st ->
+    stored_at st ops i im pid name e ct -> stored_at st ops j im' pid' name' e' ct' ->
+    still_related st ops pid -> still_related st ops pid' ->
+    H (i_blob im) = H (i_blob im') -> pid = pid' /\ name = name' /\ e = e' /\ ct = ct'.
+  Proof.
+    intros I S1 S2 L1 L2 E.
+    destruct (once _ _ _ _ _ _ _ _ I S1 L1) as [p [P1 [P2 [P3 [P4 [P5 [P6 [P7 [P8 P9]]]]]]]]].
+    destruct (once _ _ _ _ _ _ _ _ I S2 L2) as [q [Q1 [Q2 [Q3 [Q4 [Q5 [Q6 [Q7 [Q8 Q9]]]]]]]]].
+    assert (q = p) by (apply P8; auto; congruence). subst q.
     repeat split; congruence.
   Qed.
 
-  Lemma distinct st ops i j im im' name e ct name' e' ct' : Inv H st ->
-    stored_at st ops i im name e ct -> stored_at st ops j im' name' e' ct' ->
-    H (i_blob im) <> H (i_blob im') -> name <> name'.
+  Lemma distinct st ops i j im im' pid pid' name e ct name' e' ct' : Inv H st ->
+    stored_at st ops i im pid name e ct -> stored_at st ops j im' pid' name' e' ct' ->
+    still_related st ops pid -> still_related st ops pid' ->
+    H (i_blob im) <> H (i_blob im') -> pid <> pid' /\ name <> name'.
   Proof.
-    intros I S1 S2 E Hn.
-    destruct (once _ _ _ _ _ _ _ I S1) as [p [P1 [P2 [P3 [P4 [P5 [P6 P7]]]]]]].
-    destruct (once _ _ _ _ _ _ _ I S2) as [q [Q1 [Q2 [Q3 [Q4 [Q5 [Q6 Q7]]]]]]].
-    assert (p = q).
-    { apply (nodup_map_inj p_name (st_parts (final H fl st ops))); auto; [|congruence].
-      apply (inv_names H). apply (run_inv H fl ops st I). }
-    subst q. congruence.
+    intros I S1 S2 L1 L2 E.
+    destruct (once _ _ _ _ _ _ _ _ I S1 L1) as [p [P1 [P2 [P3 [P4 [P5 [P6 [P7 [P8 P9]]]]]]]]].
+    destruct (once _ _ _ _ _ _ _ _ I S2 L2) as [q [Q1 [Q2 [Q3 [Q4 [Q5 [Q6 [Q7 [Q8 Q9]]]]]]]]].
+    assert (D : p <> q) by (intros ->; congruence).
+    split.
+    - intros Hn. apply D. apply (id_in_heap H (final H fl st ops)).
+      + apply run_inv; auto.
+      + apply store_In in P2. tauto.
+      + apply store_In in Q2. tauto.
+      + congruence.
+    - intros Hn. apply D. symmetry. apply P9; auto. congruence.
   Qed.
 
-  Lemma bytes st ops i im name e ct : Inv H st -> stored_at st ops i im name e ct ->
+  Lemma bytes st ops i im pid name e ct : Inv H st -> stored_at st ops i im pid name e ct ->
+    still_related st ops pid ->
     (forall b, H b = H (i_blob im) -> b = i_blob im) ->
-    exists p, In p (st_parts (final H fl st ops)) /\ p_name p = name /\ p_blob p = i_blob im.
+    exists p, In p (store (final H fl st ops)) /\ p_id p = pid /\ p_name p = name /\ p_blob p = i_blob im.
   Proof.
-    intros I S Hsep.
-    destruct (once _ _ _ _ _ _ _ I S) as [p [P1 [P2 [P3 [P4 [P5 [P6 P7]]]]]]].
+    intros I S L Hsep.
+    destruct (once _ _ _ _ _ _ _ _ I S L) as [p [P1 [P2 [P3 [P4 [P5 [P6 [P7 _]]]]]]]].
     exists p. repeat split; auto.
   Qed.
 
-  (** nothing already in the store is changed or dropped by any history *)
-  Lemma preserved st ops q : Inv H st -> In q (st_parts st) -> In q (st_parts (final H fl st ops)).
-  Proof. intros I Hq. apply run_keeps; auto. Qed.
+  (** a history without removals loses nothing the package reached *)
+  Lemma preserved st ops q : Inv H st -> forallb (fun o => negb (removal o)) ops = true ->
+    In q (store st) -> In q (store (final H fl st ops)).
+  Proof. intros I Rm Hq. apply run_keeps; auto. Qed.
 
-  (** save and re-open: under the invariant the reloaded store is the store, so the
-      digest index rebuilt from the loaded parts answers every query as before *)
-  Lemma reopen st : Inv H st ->
-    step H fl st OReload = (st, Ok OutUnit) /\
-    forall d, find_by_digest H d (map reload_part (st_parts st)) = find_by_digest H d (st_parts st).
+  (** the look-up answers with a part the relationships lead to, or with none *)
+  Lemma lookup_reachable st d :
+    match find_by_digest H d st with
+    | Some p => In p (index st) /\ In p (store st) /\ digest H p = d
+    | None => forall p, In p (index st) -> digest H p <> d
+    end.
   Proof.
-    intros I. assert (E : map reload_part (st_parts st) = st_parts st)
-      by (apply reload_parts_id; apply (inv_cls H); exact I).
-    split.
-    - simpl. rewrite E. destruct st; reflexivity.
-    - intros d. rewrite E. reflexivity.
+    destruct (find_by_digest H d st) as [p|] eqn:F.
+    - apply find_by_digest_some; auto.
+    - apply find_by_digest_none; auto.
+  Qed.
+
+  (** an object nothing leads to is out of the game: no later step of any history makes
+      the package reach it again, so it is never the answer of a look-up and never saved *)
+  Lemma orphan_stays st ops p : Inv H st -> In p (st_heap st) -> reachable (st_slides st) p = false ->
+    forall q, In q (st_heap (final H fl st ops)) -> p_id q = p_id p ->
+              reachable (st_slides (final H fl st ops)) q = false.
+  Proof.
+    intros I Hp R. apply (run_orphan H fl ops st p I).
+    - apply (owns_member H); auto.
+    - intros q Hq E. assert (q = p) by (apply (id_in_heap H st); auto). subst q. exact R.
+  Qed.
+
+  (** adding bytes with the same digest again right away changes nothing and gives the
+      same object *)
+  Lemma once_step st s im u st1 pid name rid e ct a b : Inv H st ->
+    step H fl st (OImage s im u) = (st1, Ok (OutImg pid name rid e ct a b)) ->
+    exists p, p_id p = pid /\ find_by_digest H (H (i_blob im)) st1 = Some p /\
+      forall im', H (i_blob im') = H (i_blob im) -> get_or_add H st1 im' = Ok (st_heap st1, p).
+  Proof.
+    intros I S. assert (I1 : Inv H st1) by (eapply step_inv; eauto).
+    destruct (step_image_part H fl _ _ _ _ _ _ _ _ _ _ _ _ I S) as [p [P1 [P2 [_ [_ [_ [P6 _]]]]]]].
+    assert (F : find_by_digest H (H (i_blob im)) st1 = Some p).
+    { rewrite <- P6. apply find_by_digest_is; auto. }
+    exists p. repeat split; auto. intros im' E. unfold get_or_add. rewrite E, F. reflexivity.
+  Qed.
+
+  (** save and re-open: the objects nothing leads to are gone; what the package reaches
+      and what the look-up iterates are unchanged, so the digest index rebuilt from the
+      loaded parts answers every query as before *)
+  Lemma reopen st : Inv H st ->
+    let st' := fst (step H fl st OReload) in
+    st_heap st' = store st /\ st_slides st' = st_slides st /\
+    store st' = store st /\ index st' = index st /\
+    forall d, find_by_digest H d st' = find_by_digest H d st.
+  Proof.
+    intros I st'. assert (E : map reload_part (store st) = store st).
+    { apply reload_parts_id. apply Forall_forall. intros p Hp. apply store_In in Hp as [Hp _].
+      exact (proj1 (Forall_forall _ _) (inv_cls H st I) p Hp). }
+    assert (Hh : st_heap st' = store st) by exact E.
+    assert (Hs : st_slides st' = st_slides st) by reflexivity.
+    destruct (reload_store st st' Hh Hs) as [A B].
+    repeat split; auto.
+    intros d. unfold find_by_digest. rewrite Hh, Hs. unfold store. apply find_filter_imp.
+    intros p _ F. apply andb_true_iff in F as [F _]. apply indexed_reachable; auto.
   Qed.
 
   (** a part created by get_or_add survives re-opening as an indexed image part even
       without the invariant on the rest of the store *)
-  Lemma reopen_new ps im p : new_image_part ps im = Ok p -> reload_part p = p.
+  Lemma reopen_new st im p : new_image_part st im = Ok p -> reload_part p = p.
   Proof.
-    intros N. destruct (new_image_part_spec ps im p N) as [_ [_ [_ [C _]]]].
+    intros N. destruct (new_image_part_spec st im p N) as [_ [_ [_ [_ [_ [_ [C _]]]]]]].
     apply reload_part_id. exact C.
   Qed.
 
-  Lemma new_part_type ps im ps' p : get_or_add H ps im = Ok (ps', p) ->
-    find_by_digest H (H (i_blob im)) ps = None ->
-    p_blob p = i_blob im /\ ~ In (p_name p) (map p_name ps) /\
+  Lemma new_part_type st im hp' p : get_or_add H st im = Ok (hp', p) ->
+    find_by_digest H (H (i_blob im)) st = None ->
+    p_blob p = i_blob im /\ ~ In (p_name p) (map p_name (store st)) /\
     exists e, image_ext (i_blob im) (i_meta im) = Ok e /\ ext (p_name p) = e /\
+              p_name p = image_partname (next_image_idx (map p_name (store st))) e /\
               assoc e image_content_types = Some (p_ct p).
   Proof.
     intros G F. destruct (get_or_add_spec H _ _ _ _ G) as [[_ F']|[_ [_ N]]]; [congruence|].
-    destruct (new_image_part_spec ps im p N) as [A [_ [_ [_ [D [e [E1 [E2 [E3 E4]]]]]]]]].
+    destruct (new_image_part_spec st im p N) as [_ [A [_ [_ [_ [_ [_ [D [e [E1 [E2 [E3 E4]]]]]]]]]]]].
     repeat split; auto. exists e. repeat split; auto.
     unfold ext_content_type in E4. destruct (assoc e image_content_types); [|discriminate].
     injection E4 as ->. reflexivity.
   Qed.
 
-  (** the relationship used by the picture targets the stored part *)
-  Lemma rel_targets_part st s im u st' name rid e ct a b :
-    step H fl st (OImage s im u) = (st', Ok (OutImg name rid e ct a b)) ->
-    exists rs', nth_error (st_slides st') s = Some rs' /\ In (rid, Some name) rs'.
+  (** the relationship used by the picture targets the stored object *)
+  Lemma rel_targets_part st s im u st' pid name rid e ct a b : Inv H st ->
+    step H fl st (OImage s im u) = (st', Ok (OutImg pid name rid e ct a b)) ->
+    (exists rs', nth_error (st_slides st') s = Some rs' /\ In (rid, Some pid) rs') /\
+    exists p, In p (index st') /\ p_id p = pid /\ p_name p = name.
   Proof.
-    intros S. destruct (step_image H fl _ _ _ _ _ _ _ _ _ _ _ S) as [p [rs [rs' [_ [_ [_ [_ [N [R [E _]]]]]]]]]].
-    exists rs'. rewrite E. split.
-    - apply (nth_set_nth _ _ _ _ N).
-    - exact (proj1 (relate_spec _ _ _ _ R)).
+    intros I S. destruct (step_image_part H fl _ _ _ _ _ _ _ _ _ _ _ _ I S) as [p [P1 [P2 [P3 [_ [_ [_ [_ R]]]]]]]].
+    split; auto. exists p. auto.
+  Qed.
+
+  (** a removal takes nothing but relationships away: the heap is untouched, what the
+      package reaches can only shrink, and the names it reports are the ones left *)
+  Lemma removal_effect st o st' r : Inv H st -> step H fl st o = (st', r) -> removal o = true ->
+    st_heap st' = st_heap st /\
+    (forall q, In q (store st') -> In q (store st)) /\
+    (forall q, In q (index st') -> In q (index st)).
+  Proof.
+    intros I S Rm. destruct (step_store H fl _ _ _ _ I S) as [_ Eff].
+    destruct Eff as [[_ [R _]]|[[im [p [_ [_ [R _]]]]]|[[Hh [_ [Q _]]]|[_ [_ E]]]]]; try congruence.
+    - split; auto. split; intros q; rewrite ?store_In, ?index_In, Hh; intros [A B]; split; auto.
+      + unfold reachable in *. apply orb_true_iff in B as [B|B]; [rewrite B; auto|].
+        rewrite (Q q B). apply orb_true_r.
+      + unfold indexed in *. apply andb_true_iff in B as [B1 B2]. rewrite B1, (Q q B2). reflexivity.
+    - subst o. discriminate.
   Qed.
 End StoreTheorems.
+
 
 (* ================================================================== numbers *)
 Section Numbers.
@@ -986,17 +1448,20 @@ Qed.
 
 Lemma inv_meaning H st :
   Inv H st <->
-  NoDup (map p_name (st_parts st)) /\
-  NoDup (map (digest H) (filter visible (st_parts st))) /\
-  Forall (fun p => p_cls p = ct_is_imagepart (p_ct p)) (st_parts st).
+  NoDup (map p_id (st_heap st)) /\
+  Forall (fun p => (p_id p < st_next st)%N) (st_heap st) /\
+  NoDup (map p_name (store st)) /\
+  NoDup (map (digest H) (index st)) /\
+  Forall (fun p => p_cls p = ct_is_imagepart (p_ct p)) (st_heap st) /\
+  (forall i, In i (targets (st_slides st)) -> In i (map p_id (st_heap st))).
 Proof.
   split.
-  - intros [A B C]. auto.
-  - intros [A [B C]]. constructor; auto.
+  - intros [A B C D E F]. auto 10.
+  - intros [A [B [C [D [E F]]]]]. constructor; auto.
 Qed.
 
 Lemma inv_empty H : Inv H empty_state.
-Proof. constructor; simpl; constructor. Qed.
+Proof. constructor; simpl; try constructor. intros i []. Qed.
 
 Lemma scale_one_given : forall fl : Q -> Q,
   (forall p q, (p == q)%Q -> (fl p == fl q)%Q) ->
